@@ -69,6 +69,8 @@ type ReqSpec struct {
 	CWeight   int         `json:"client_weight,omitempty"` // scheduler weight of the client task (default: Weight)
 	WSClose   string      `json:"ws_close,omitempty"` // normal | none | away
 	Backend   string      `json:"backend,omitempty"`  // proxied through this backend ("" = local)
+	Route     string      `json:"route,omitempty"`    // http: "" (annotated if the method has one) | implicit
+	Round     int         `json:"round,omitempty"`    // registrysim: probe of the round after this many registrar operations (0: not gated)
 	MD        [][2]string `json:"md,omitempty"`       // extra request metadata
 }
 
@@ -79,6 +81,10 @@ type MuxScenario struct {
 	Backends []BackendSpec  `json:"backends,omitempty"`
 	Local    []string       `json:"local,omitempty"`         // local services (nil: all of localServices; ["-"]: none)
 	SkipRegister bool       `json:"skip_register,omitempty"` // backends are started but not registered (registrysim does it itself)
+	Pre        []RegOp      `json:"pre,omitempty"` // registrations done before any task starts
+	Registrars [][]RegOp    `json:"registrars,omitempty"`
+	Sequential bool         `json:"sequential,omitempty"` // probes and registrar operations never overlap
+	Monitor    int          `json:"monitor,omitempty"`    // number of snapshot captures by the monitor task
 	Clock    []int64        `json:"clock_ns,omitempty"` // planned clock jumps (C15)
 	Note     string         `json:"note,omitempty"`
 }
@@ -103,6 +109,7 @@ type reqState struct {
 
 	hlog HLog // local handler (or the proxy-side view is not scripted)
 	blog HLog // backend handler, when proxied
+	servedBy []string // tags of the handlers that were entered for this request
 
 	sent        int
 	abortedAt   int // sim step of the abort (-1)
@@ -110,6 +117,7 @@ type reqState struct {
 	panicVal    any
 	panicStack  string
 	srvStarted  bool
+	invokeStep, returnStep int
 	requestTime time.Duration
 
 	// mirrors
@@ -150,7 +158,7 @@ func (r *reqState) handlerSpec(tag string) *HandlerSpec { return &r.spec.Handler
 // log is the log of the handler that runs this request's script: the local
 // one, or the backend's when the method is proxied.
 func (r *reqState) log() *HLog {
-	if r.spec.Backend != "" {
+	if r.spec.Backend != "" || len(r.servedBy) > 0 && r.servedBy[0] != "local" {
 		return &r.blog
 	}
 	return &r.hlog
@@ -227,11 +235,14 @@ func (r *reqState) expectedReq(i int) proto.Message {
 }
 
 func (r *reqState) boundPathVar() string {
-	if r.method.httpPath == nil {
+	if r.method.httpPath == nil || r.spec.Route == "implicit" {
 		return ""
 	}
-	if r.method.Key == "chat" {
+	switch r.method.Key {
+	case "chat":
 		return "rooms/" + r.spec.PathVar
+	case "getmsg":
+		return "name/" + r.spec.PathVar
 	}
 	return r.spec.PathVar
 }
@@ -285,10 +296,16 @@ func (r *reqState) encode() {
 		if sp.ID%2 == 0 {
 			major, minor = 1, 1
 		}
-		if r.method.httpPath != nil {
-			path = r.method.httpPath(sp.PathVar)
+		annotated := r.method.httpPath != nil && sp.Route != "implicit"
+		if annotated {
+			path = r.method.httpPath(r.boundPathVar())
+			if r.method.httpVerb != "" {
+				meth = r.method.httpVerb
+			}
 		}
 		switch {
+		case annotated && meth == "GET":
+			// no body: everything travels in the path
 		case !r.method.ClientS && sp.Codec != "body":
 			// not client-streaming: the body is the one message, unframed
 			h.Set("Content-Type", map[string]string{"json": "application/json", "proto": "application/protobuf"}[sp.Codec])
@@ -359,6 +376,10 @@ func (r *reqState) encode() {
 	}
 	if sp.Proto == "http" && r.method.Shape() == "unary" && len(w) == 0 {
 		req.ContentLength = 0
+	}
+	if meth == "GET" && sp.Proto == "http" {
+		req.ContentLength = 0
+		req.Body = http.NoBody
 	}
 	r.httpReq = req.WithContext(r.q.ctx)
 }
@@ -518,12 +539,14 @@ func (r *reqState) serverTask(mux http.Handler) {
 		}
 		r.q.finish()
 	}()
-	if !r.sSlot.Yield("srv.start", core.Always, 0) {
+	if !r.sSlot.Yield("srv.start", probeStart{r}, 0) {
 		return
 	}
 	r.sim.Bind(r.hSlot)
 	r.srvStarted = true
 	r.requestTime = r.sim.Now()
+	r.invokeStep = r.sim.StepNo()
+	defer func() { r.returnStep = r.sim.StepNo() }()
 	mux.ServeHTTP(simRW{r.q}, r.httpReq)
 }
 
@@ -578,15 +601,28 @@ type muxRun struct {
 	setupErr error
 	world  *World
 	backends []*backend
+	registrars []*registrar
+	pre      *registrar
+	monitor  *monitor
 }
 
-type allDone struct{ reqs []*reqState }
+type allDone struct {
+	reqs []*reqState
+	mr   *muxRun
+}
 
 //go:norace
 func (d allDone) Enabled(int) bool {
 	for _, r := range d.reqs {
 		if !r.q.hasReturned() || !r.clientDone() {
 			return false
+		}
+	}
+	if d.mr != nil {
+		for _, g := range d.mr.registrars {
+			if done, _ := g.progress(); done < len(g.ops) {
+				return false
+			}
 		}
 	}
 	return true
@@ -661,7 +697,7 @@ func runMuxScenario(t *testing.T, sc *MuxScenario, tape *core.Tape) *muxRun {
 			rs.cSlot = sim.NewSlot(name+".client", cw)
 			rs.sSlot = sim.NewSlot(name+".srv", w)
 			rs.hSlot = sim.NewSlot(name+".h", w)
-			if sp.Backend != "" {
+			if sp.Backend != "" || len(sc.Backends) > 0 {
 				rs.bSlot = sim.NewSlot(name+".bh", w)
 			}
 			rs.encode()
@@ -726,7 +762,28 @@ func runMuxScenario(t *testing.T, sc *MuxScenario, tape *core.Tape) *muxRun {
 			}
 			sim.Clock = cp
 		}
-		mr.stop = sim.Run(allDone{mr.reqs})
+		if len(sc.Pre) > 0 {
+			pre := &registrar{mr: mr, idx: -1, ops: sc.Pre}
+			for i, op := range sc.Pre {
+				res := &regResult{Op: op, Reg: -1, Idx: i}
+				pre.exec(res)
+				res.Done = true
+				pre.res = append(pre.res, res)
+			}
+			mr.pre = pre
+		}
+		for i, ops := range sc.Registrars {
+			g := &registrar{mr: mr, idx: i, ops: ops, slot: sim.NewSlot("reg"+strconv.Itoa(i), 2)}
+			mr.registrars = append(mr.registrars, g)
+		}
+		for _, g := range mr.registrars {
+			go g.run()
+		}
+		if sc.Monitor > 0 {
+			mr.monitor = &monitor{mr: mr, slot: sim.NewSlot("monitor", 1)}
+			go mr.monitor.run(sc.Monitor)
+		}
+		mr.stop = sim.Run(allDone{mr.reqs, mr})
 		if mr.stop != core.StopDone {
 			mr.parked = sim.ParkedLabels()
 			for _, rs := range mr.reqs {
